@@ -18,6 +18,7 @@ RULE = ('every byte string over the alphabet {CR, LF, NUL, space, "a"} of '
         'of the newline.')
 FLOOR = {'quick': 100000, 'thorough': 1000000}
 REQUIRED_REACH = ['split_lines']
+REQUIRED_COUNTERS = ['cold_pass_pairs', 'large_buffers_checked']
 ASSUMPTIONS = ['newline sequences are those of NEWLINE_FORMATS in the 5 '
                'fixed-width encodings; they have no self-overlap']
 
@@ -55,6 +56,28 @@ def run(ctx):
     idx = 0
     n_cases = 0
     n_nontrivial = 0
+    # split_lines must not depend on what else the library did before in
+    # this process: a short "cold" pass first, then the sibling helpers are
+    # exercised for every codec (as reader / writer do), then the full pass
+    for length in range(1, 6):
+        for tup in itertools.product(ALPHABET, repeat=length):
+            idx += 1
+            if not ctx.mine(idx):
+                continue
+            data = b''.join(tup)
+            for nl in NEWLINES:
+                check(split_lines, data, nl, obs)
+                n_cases += 1
+    obs.count('cold_pass_pairs', n_cases)
+    import pydiffx.utils.text as text
+    for codec in ('ascii', 'utf-8', 'utf-16', 'utf-16-le', 'utf-16-be',
+                  'utf-32', 'utf-32-le', 'utf-32-be', 'cp037', 'UTF16',
+                  'U32'):
+        for kind in ('unix', 'dos'):
+            text.get_newline_for_type(kind, codec)
+            text.guess_line_endings('a\r\nb'.encode(codec), codec)
+            text.strip_bom('x'.encode(codec), codec)
+    idx = 0
     for length in range(1, L + 1):
         for tup in itertools.product(ALPHABET, repeat=length):
             idx += 1
@@ -94,6 +117,19 @@ def run(ctx):
         obs.case((data, nl), nontrivial=nl in data)
         check(text.split_lines, data, nl, obs)
     obs.count('random_long_strings', n)
+    # very large buffers, the SAME object split repeatedly in both modes
+    # (size thresholds, result caching)
+    if ctx.index < 4:
+        for size in (65535, 65536, 65537, 200000):
+            for nl in NEWLINES[:4]:
+                unit = (b'line %d' % size) + nl
+                data = (unit * (size // len(unit) + 1))[:size - len(nl)] + nl
+                if ctx.index % 2:
+                    data = data[:-len(nl)] + b'x'      # unterminated
+                obs.case((size, nl, ctx.index % 2, 'big'), nontrivial=True)
+                for _ in range(3):
+                    check(text.split_lines, data, nl, obs)
+                obs.count('large_buffers_checked')
 
 
 def replay(case, obs):
